@@ -4,6 +4,7 @@ import (
 	"fmt"
 	"go/token"
 	"go/types"
+	"strings"
 
 	"golang.org/x/tools/go/packages"
 	"golang.org/x/tools/go/ssa"
@@ -302,6 +303,31 @@ func runC03(c *Ctx) {
 		}
 		if n == 0 {
 			c.Bad("retry sender Shutdown closes the stop channel", "-", "nothing closes the retry sender's stop channel: a retry wait is not interrupted by shutdown")
+		}
+	}
+	// ---------- R7 every request gets an attempt
+	c.Rule("R7", "ORD", "the retry sender makes its first attempt unconditionally: no return of Send is reachable from its entry without passing the export call (a request drained during shutdown is attempted at least once even though the stop channel is already closed)", 1)
+	if send, _, attempt := findRetrySend(p); send == nil || attempt == nil {
+		c.Anchor("retry sender Send and its attempt call")
+	} else {
+		var to []ssa.Instruction
+		for _, r := range returnsOf(send) {
+			to = append(to, r)
+		}
+		ok, esc := mustPassThrough(send, nil, map[ssa.Instruction]bool{attempt.(ssa.Instruction): true}, to)
+		c.Check(ok, "first attempt in "+fnName(send)+" is unconditional", p.Pos(attempt.Pos()), "every path from entry to a return passes the export call", "the return at "+posOf(p, esc)+" is reachable without any export attempt: requests drained from the in-memory queue after the retry sender was stopped are dropped without ever being attempted while Shutdown reports success")
+	}
+	// ---------- R8 shutdown classification (shared with C01.R5)
+	{
+		sub := NewCtx(p, "C01", c.Tier, c.Config)
+		if a := findPQ(p); a != nil {
+			runC01Chain(sub, a)
+		}
+		c.Rule("R8", "TAB+CHAIN", "an export interrupted by shutdown is recognised as such through every wrapper on its way to the persistent queue (same rule as C01.R5): only then is the request kept for the next start", 4)
+		for _, o := range sub.Obs {
+			if o.Rule == "C01.R5" && !strings.HasPrefix(o.Construct, "floor:") {
+				c.add(o.Verdict, o.Construct, o.Pos, o.Detail)
+			}
 		}
 	}
 	// ---------- R6 aggregation
